@@ -1,2 +1,4 @@
 import Rfsm.Model.Wire
 import Rfsm.Model.Descriptor
+import Rfsm.Model.Queue
+import Rfsm.Model.Route
